@@ -10,6 +10,7 @@ from tree_sitter import Node
 from nix_manipulator.expressions.comment import Comment
 from nix_manipulator.expressions.expression import NixExpression, TypedExpression
 from nix_manipulator.expressions.identifier import Identifier
+from nix_manipulator.expressions.parenthesis import Parenthesis
 from nix_manipulator.expressions.set import AttributeSet
 from nix_manipulator.expressions.trivia import (
     collect_comments_between_with_gap,
@@ -139,6 +140,14 @@ class FunctionCall(TypedExpression):
             return self.add_trivia(function_str, indent, inline)
 
         argument_expr = self.argument
+        if argument_expr.has_scope() and not isinstance(argument_expr, Parenthesis):
+            # `f let … in { … }` is not valid Nix: an argument that carries let
+            # layers (created by a scoped edit) is rendered in parentheses.
+            argument_expr = Parenthesis(
+                value=argument_expr,
+                leading_gap="\n" + " " * (indent + 2),
+                trailing_gap="\n" + " " * indent,
+            )
         if self.argument_gap is None:
             preview = argument_expr.rebuild(indent=indent, inline=True)
             prefer_newline = not inline and indent > 0 and "\n" in preview
